@@ -121,6 +121,10 @@ impl LoggerHandle {
             writers_handle: WritersHandle {
                 spec,
                 spec_stack: Vec::default(),
+                _shutdown_guard: Arc::new(ShutdownGuard {
+                    primary_writer: Arc::clone(&primary_writer),
+                    other_writers: Arc::clone(&other_writers),
+                }),
                 primary_writer,
                 other_writers,
             },
@@ -504,6 +508,8 @@ pub(crate) struct WritersHandle {
     spec_stack: Vec<LogSpecification>,
     primary_writer: Arc<PrimaryWriter>,
     other_writers: Arc<HashMap<String, Box<dyn LogWriter>>>,
+    // shared by all clones, so that only the drop of the last clone shuts down the writers
+    _shutdown_guard: Arc<ShutdownGuard>,
 }
 impl WritersHandle {
     fn set_new_spec(&self, new_spec: LogSpecification) -> Result<(), FlexiLoggerError> {
@@ -529,7 +535,11 @@ impl WritersHandle {
         log::set_max_level(max_level);
     }
 }
-impl Drop for WritersHandle {
+struct ShutdownGuard {
+    primary_writer: Arc<PrimaryWriter>,
+    other_writers: Arc<HashMap<String, Box<dyn LogWriter>>>,
+}
+impl Drop for ShutdownGuard {
     fn drop(&mut self) {
         self.primary_writer.shutdown();
         for writer in self.other_writers.values() {
